@@ -434,7 +434,10 @@ impl<'a, T> ChordsV2<'a, T> {
                         .iter()
                         .all(|pk| accumulated_presses.contains(pk))
                     {
-                        let ach = get_active_chord(cch, since, coord, relevant_release_found);
+                        // The release of a key that is not part of this chord does not release it.
+                        let release_found =
+                            relevant_release_found && chord_key_release_queued(&self.queue, cch);
+                        let ach = get_active_chord(cch, since, coord, release_found);
                         add_active_chord(&mut self.active_chords, &mut self.evicted_coords, ach);
                         activated_chord = true;
                         break;
@@ -467,7 +470,9 @@ impl<'a, T> ChordsV2<'a, T> {
                     match completed_chord {
                         Some(cch) => {
                             let coord = self.next_coord();
-                            let ach = get_active_chord(cch, since, coord, relevant_release_found);
+                            let release_found =
+                                relevant_release_found && chord_key_release_queued(&self.queue, cch);
+                            let ach = get_active_chord(cch, since, coord, release_found);
                             add_active_chord(&mut self.active_chords, &mut self.evicted_coords, ach);
                             activated_chord = true;
                         }
@@ -523,8 +528,9 @@ impl<'a, T> ChordsV2<'a, T> {
             };
             match completed_chord {
                 Some(cch) => {
-                    let ach =
-                        get_active_chord(cch, since, self.next_coord(), relevant_release_found);
+                    let release_found =
+                        relevant_release_found && chord_key_release_queued(&self.queue, cch);
+                    let ach = get_active_chord(cch, since, self.next_coord(), release_found);
                     add_active_chord(&mut self.active_chords, &mut self.evicted_coords, ach);
                 }
                 None => {
@@ -619,6 +625,24 @@ fn release_key_from_active_chords<T>(achs: &mut HVec<ActiveChord<T>, 10>, j: u16
             }
         }
     });
+}
+
+/// Returns whether the queue has the release of a key of the chord, after the press of that key.
+fn chord_key_release_queued<T>(queue: &Queue, cch: &ChordV2<'_, T>) -> bool {
+    let mut presses = HVec::<u16, PRESSES_LEN>::new();
+    for qd in queue.iter() {
+        match qd.event {
+            Event::Press(_, j) => {
+                let _ = presses.push(j);
+            }
+            Event::Release(_, j) => {
+                if presses.contains(&j) && cch.participating_keys.contains(&j) {
+                    return true;
+                }
+            }
+        }
+    }
+    false
 }
 
 fn get_active_chord<'a, T>(
